@@ -200,8 +200,8 @@ _REF = st.tuples(st.sampled_from([0, 0, 1, 1, 2]), st.integers(0, 11)).map(list)
 
 
 @st.composite
-def _size_spec(draw, cap):
-    k = draw(st.sampled_from([0] + [1, 2] * 3 + [3] * 10))
+def _size_spec(draw, cap, fill_often=True):
+    k = draw(st.sampled_from(([0] if fill_often else []) + [1, 2] * 3 + [3] * 10 + ([] if fill_often else [1] * 8 + [3] * 24 + [0])))
     if k == 0:
         return dict(fill=draw(st.sampled_from([-1, 0, 0, 1])))
     if k <= 2:
@@ -215,14 +215,15 @@ _ALIGN_POOL_SMALL = [1] * 16 + [8] * 22 + [64] * 5 + [256] + [10, 14, 3, 10] + [
 
 
 @st.composite
-def _alloc_stmt(draw, mems, dyn_ok=False, main=1):
+def _alloc_stmt(draw, mems, dyn_ok=False, main=1, fill_often=True):
     mem = draw(st.sampled_from([main] * 5 + [1 - main]))
     a = dict(op="alloc", mem=mem, elt=draw(st.sampled_from(["i8", "i8", "i32"])), rank2=draw(st.sampled_from([0, 0, 2, 3, 4])),
              aty=draw(st.sampled_from(["i64", "i64", "i32"])))
-    a.update(draw(_size_spec(mems[mem]["cap"])))
+    # layout of the allocated memref: 0 = none, g > 0 = tiled-strided with every step multiplied by 1 + g (gaps), optional offset
+    lay = draw(st.sampled_from([0, 0, 0, 0, 1, 2]))
+    a.update(draw(_size_spec(mems[mem]["cap"] // (2 * (1 + lay)), fill_often)))
     if "fill" not in a:
-        # layout of the allocated memref: 0 = none, g > 0 = tiled-strided with every step multiplied by 1 + g (gaps), optional offset
-        a["lay"] = draw(st.sampled_from([0, 0, 0, 0, 1, 2]))
+        a["lay"] = lay
         a["loff"] = draw(st.sampled_from([0, 0, 3]))
     a["align"] = draw(st.sampled_from(_ALIGN_POOL if mems[mem]["cap"] >= 1000 else _ALIGN_POOL_SMALL))
     if dyn_ok and draw(st.sampled_from([True, False, False])):
@@ -268,13 +269,13 @@ def place_case(draw, tier="quick"):
     dyn_ok = mode == "auto" and draw(st.sampled_from([True] + [False] * 5))
     n = draw(st.integers(3, 12 if tier == "quick" else 18))
     main = draw(st.sampled_from([0, 1, 1]))
-    stmts = [draw(_alloc_stmt(mems, dyn_ok, main))]
+    stmts = [draw(_alloc_stmt(mems, dyn_ok, main, mode == "static"))]
     if draw(st.booleans()):
-        stmts.append(draw(_alloc_stmt(mems, dyn_ok, main)))
+        stmts.append(draw(_alloc_stmt(mems, dyn_ok, main, mode == "static")))
     for _ in range(n - 1):
         k = draw(st.sampled_from(list(range(20))))
         if k <= 5:
-            stmts.append(draw(_alloc_stmt(mems, dyn_ok, main)))
+            stmts.append(draw(_alloc_stmt(mems, dyn_ok, main, mode == "static")))
         elif k <= 9:
             stmts.append(draw(_view_stmt()))
         elif k <= 15:
@@ -301,7 +302,7 @@ def align_up(x: int, a) -> int:
 
 
 class _Val:
-    __slots__ = ("name", "ty", "elt", "shape", "strides", "offset", "space", "roots", "is_root", "plain", "depth")
+    __slots__ = ("name", "ty", "elt", "shape", "strides", "offset", "space", "roots", "is_root", "depth")
 
     def __init__(self, **kw):
         for k, v in kw.items():
@@ -327,8 +328,7 @@ class PlaceBuilt:
         self.n_stmts = 0
         self.stmts = []  # the statements really emitted (front mode may append uses)
         self.access = []  # per top-level stmt: set of roots accessed by an opaque op (through any alias)
-        self.touch_views = []  # per stmt: roots with an operand occurrence of the root or of a view-derived value (no region results)
-        self.touch_direct = []  # per stmt: roots whose own cast value is an operand of some op
+        self.access_view = []  # per top-level stmt: roots accessed through a value that is not the buffer's own cast
         self.features = set()
         self.ret_roots = set()
         self.static_expect = None  # ("ok", {k: addr}) | ("full", k)
@@ -365,16 +365,13 @@ def build_place(r) -> PlaceBuilt:
             pool = [v for v in vis if v.is_root] or vis
         return pool[i % len(pool)]
 
-    cur = dict(access=set(), views=set(), direct=set())
+    cur = dict(access=set(), aview=set())
 
-    def touch(v, access=False):
-        """Record an operand occurrence of value v in the current top-level statement."""
-        if v.is_root:
-            cur["direct"].update(v.roots)
-        if v.plain:
-            cur["views"].update(v.roots)
-        if access:
-            cur["access"].update(v.roots)
+    def access(v):
+        """Record that an opaque op (or the return) of the current top-level statement uses value v."""
+        cur["access"].update(v.roots)
+        if not v.is_root:
+            cur["aview"].update(v.roots)
 
     def emit_view(s, vis, pad, depth):
         src = pick(vis, s["src"])
@@ -429,9 +426,7 @@ def build_place(r) -> PlaceBuilt:
             out.features.add("view:unrealized_cast")
         v.roots = src.roots
         v.is_root = False
-        v.plain = src.plain
         v.depth = depth
-        touch(src)
         if not src.is_root:
             out.features.add("view-chain")
         vis.append(v)
@@ -442,7 +437,7 @@ def build_place(r) -> PlaceBuilt:
         if not vals:
             return
         for v in vals:
-            touch(v, access=True)
+            access(v)
             if not v.is_root:
                 out.features.add("use:through-view")
             if depth > 0:
@@ -496,7 +491,7 @@ def build_place(r) -> PlaceBuilt:
             stmts.append(dict(op="use", refs=[[2, missing[0]]]))
         t += 1
         s = stmts[t]
-        cur = dict(access=set(), views=set(), direct=set())
+        cur = dict(access=set(), aview=set())
         tag = f"{{c11.stmt = {t} : i64}} "
         op = s["op"]
         if op == "alloc":
@@ -563,10 +558,8 @@ def build_place(r) -> PlaceBuilt:
                          f'({", ".join(["index"] * (1 + len(shp)))}) -> {sty}')
                 L.append(f'{pad}%m{k} = "builtin.unrealized_conversion_cast"(%a{k}) {{c11.buf = {k} : i64}} : ({sty}) -> {ty}')
             top.append(_Val(name=f"%m{k}", ty=ty, elt=elt, shape=shape, strides=None if lay else strides, offset=0, space=mem,
-                            roots=frozenset([k]), is_root=True, plain=True, depth=0))
+                            roots=frozenset([k]), is_root=True, depth=0))
             out.bufs.append(dict(k=k, mem=mem, size=None if dyn else size, align=align, stmt=t, dyn=dyn, rank=len(shape), shape=shape))
-            cur["direct"].add(k)
-            cur["views"].add(k)
         elif op == "ifres":
             a = pick(top, s["a"])
             b = pick(top, s["b"])
@@ -579,21 +572,18 @@ def build_place(r) -> PlaceBuilt:
                 L.append(f'{pad}}}, {{')
                 L.append(f'{pad}  "scf.yield"({b.name}) : ({b.ty}) -> ()')
                 L.append(f'{pad}}}) {tag}: (i1) -> ({a.ty})')
-                touch(a)
-                touch(b)
                 top.append(_Val(name=nm, ty=a.ty, elt=a.elt, shape=list(a.shape), strides=a.strides, offset=a.offset, space=a.space,
-                                roots=frozenset(a.roots | b.roots), is_root=False, plain=False, depth=0))
+                                roots=frozenset(a.roots | b.roots), is_root=False, depth=0))
                 out.features.add("region-result")
         else:
             emit_stmt(s, top, pad, 0, tag)
         out.access.append(cur["access"])
-        out.touch_views.append(cur["views"])
-        out.touch_direct.append(cur["direct"])
+        out.access_view.append(cur["aview"])
     # terminator
-    cur = dict(access=set(), views=set(), direct=set())
+    cur = dict(access=set(), aview=set())
     rv = pick(top, r["ret"]) if r.get("ret") is not None else None
     if rv is not None:
-        touch(rv, access=True)
+        access(rv)
         out.ret_roots = set(rv.roots)
         L.append(f'{pad}"func.return"({rv.name}) : ({rv.ty}) -> ()')
         fty = f"() -> ({rv.ty})"
@@ -602,8 +592,7 @@ def build_place(r) -> PlaceBuilt:
         L.append(f'{pad}"func.return"() : () -> ()')
         fty = "() -> ()"
     out.access.append(cur["access"])
-    out.touch_views.append(cur["views"])
-    out.touch_direct.append(cur["direct"])
+    out.access_view.append(cur["aview"])
     out.n_stmts = len(stmts)
     out.stmts = stmts
     lines = ['"builtin.module"() ({', f'  "func.func"() <{{sym_name = "f", function_type = {fty}}}> ({{']
